@@ -170,6 +170,13 @@ pub trait LoadBalancingAlgorithm: Debug {
     /// table off the datapath. The default is a no-op; only [`Maglev`]
     /// overrides it.
     fn rebuild(&mut self, _backends: &[Rc<RefCell<Backend>>]) {}
+
+    /// verif hook: read-only view `(size, table, backend_addrs)` of a
+    /// table-based policy's private state; `None` for every other policy.
+    #[cfg(sozu_verif)]
+    fn verif_table_view(&self) -> Option<(usize, &[usize], &[SocketAddr])> {
+        None
+    }
 }
 
 #[derive(Debug)]
@@ -839,6 +846,33 @@ impl LoadBalancingAlgorithm for Maglev {
 
     fn rebuild(&mut self, backends: &[Rc<RefCell<Backend>>]) {
         Maglev::rebuild(self, backends);
+    }
+
+    #[cfg(sozu_verif)]
+    fn verif_table_view(&self) -> Option<(usize, &[usize], &[SocketAddr])> {
+        Some((self.size, &self.table, &self.backend_addrs))
+    }
+}
+
+/// verif hook: the private hash and HRW score, exported for the out-of-tree
+/// verification harness (`--cfg sozu_verif`) so that they can be fed to the
+/// model as data. Never compiled into a normal build.
+#[cfg(sozu_verif)]
+pub mod verif {
+    use std::net::SocketAddr;
+
+    use crate::backends::Backend;
+
+    pub fn hash_backend(seed: u64, key: u64, addr: &SocketAddr) -> u64 {
+        super::hash_backend(seed, key, addr)
+    }
+
+    pub fn backend_weight(backend: &Backend) -> u32 {
+        super::backend_weight(backend)
+    }
+
+    pub fn hrw_score(policy: &super::Rendezvous, key: u64, backend: &Backend) -> f64 {
+        policy.score(key, backend)
     }
 }
 
